@@ -258,7 +258,7 @@ def run(ctx, which):
     T = R.types
     units = load_units()
     g = Gen(ctx.rng, R, units)
-    n = ctx.n(900, 12000)
+    n = ctx.n(900, 60000)
     cases = []
     seen = set()
     for i in range(n):
